@@ -40,6 +40,52 @@ type c02Desc struct {
 type c02PD struct {
 	ID    string    `json:"id"`
 	Descs []c02Desc `json:"descs"`
+	// SubReq: how the definition spells its submission requirements ("" = none: every input descriptor is required).
+	// Strict spellings still require a credential for EVERY descriptor: all | pick_count | pick_min | pick_min_max |
+	// nested_all | nested_pick. Lax spellings require nothing (no lower bound): pick_max | pick_min0.
+	SubReq string `json:"sub_req,omitempty"`
+}
+
+var c02SubReqSpellings = []string{"all", "pick_count", "pick_min", "pick_min_max", "nested_all", "nested_pick", "pick_max", "pick_min0"}
+
+// lax: the definition is satisfied by an empty presentation too (every requirement has a lower bound of 0)
+func (pd c02PD) lax() bool { return pd.SubReq == "pick_max" || pd.SubReq == "pick_min0" }
+
+// group of descriptor i: for the nested spellings the first descriptor is group A and the others group B
+func (pd c02PD) group(i int) string {
+	if (pd.SubReq == "nested_all" || pd.SubReq == "nested_pick") && i > 0 {
+		return "B"
+	}
+	return "A"
+}
+
+func (pd c02PD) renderSubReq() []any {
+	n := len(pd.Descs)
+	req := func(m map[string]any) map[string]any { m["name"] = "requirement"; return m }
+	switch pd.SubReq {
+	case "all":
+		return []any{req(map[string]any{"rule": "all", "from": "A"})}
+	case "pick_count":
+		return []any{req(map[string]any{"rule": "pick", "count": n, "from": "A"})}
+	case "pick_min":
+		return []any{req(map[string]any{"rule": "pick", "min": n, "from": "A"})}
+	case "pick_min_max":
+		return []any{req(map[string]any{"rule": "pick", "min": n, "max": n, "from": "A"})}
+	case "pick_max":
+		return []any{req(map[string]any{"rule": "pick", "max": n, "from": "A"})}
+	case "pick_min0":
+		return []any{req(map[string]any{"rule": "pick", "min": 0, "from": "A"})}
+	case "nested_all", "nested_pick":
+		nested := []any{req(map[string]any{"rule": "all", "from": "A"})}
+		if n > 1 {
+			nested = append(nested, req(map[string]any{"rule": "pick", "count": n - 1, "from": "B"}))
+		}
+		if pd.SubReq == "nested_all" {
+			return []any{req(map[string]any{"rule": "all", "from_nested": nested})}
+		}
+		return []any{req(map[string]any{"rule": "pick", "count": len(nested), "from_nested": nested})}
+	}
+	return nil
 }
 
 type c02Scope struct {
@@ -104,8 +150,20 @@ func c02RenderPD(pd c02PD) map[string]any {
 			}
 			fields = append(fields, fm)
 		}
-		ids = append(ids, map[string]any{"id": d.ID, "constraints": map[string]any{"fields": fields}})
+		idm := map[string]any{"id": d.ID, "constraints": map[string]any{"fields": fields}}
+		if pd.SubReq != "" {
+			idm["group"] = []string{pd.group(len(ids))}
+		}
+		ids = append(ids, idm)
 	}
+	out := c02RenderPDBody(pd, ids)
+	if sr := pd.renderSubReq(); sr != nil {
+		out["submission_requirements"] = sr
+	}
+	return out
+}
+
+func c02RenderPDBody(pd c02PD, ids []any) map[string]any {
 	return map[string]any{
 		"id": pd.ID,
 		"format": map[string]any{
@@ -193,7 +251,7 @@ var c02S2SDefects = map[string][]string{
 	"validity":   {"validity_long", "validity_no_exp", "validity_stale"},
 	"nonce":      {"nonce_missing", "nonce_reused"},
 	"subject":    {"signer_not_subject", "foreign_cred_in_vp", "mixed_subjects", "mixed_subjects_via_empty_vp"},
-	"definition": {"foreign_definition", "unfulfilled", "forged_map", "scope_unknown", "scope_other", "scope_near_miss", "scope_near_miss"},
+	"definition": {"foreign_definition", "unfulfilled", "forged_map", "scope_unknown", "scope_other", "scope_near_miss", "scope_near_miss", "nothing_presented", "nothing_presented"},
 	"verify":     {"bad_vp_sig", "bad_vc_sig", "cred_revoked", "cred_expired"},
 	"params":     {"param_missing", "garbage"},
 }
@@ -202,7 +260,7 @@ var c02CodeDefects = map[string][]string{
 	"aud":        {"aud_wrong", "aud_absent", "aud_near_miss", "aud_near_miss", "aud_equivalent", "aud_array_contains"},
 	"nonce":      {"nonce_missing", "nonce_foreign"},
 	"subject":    {"signer_not_subject", "foreign_cred_in_vp", "mixed_subjects", "mixed_subjects_via_empty_vp"},
-	"definition": {"foreign_definition", "unfulfilled", "forged_map", "scope_unknown", "scope_near_miss", "scope_near_miss"},
+	"definition": {"foreign_definition", "unfulfilled", "forged_map", "scope_unknown", "scope_near_miss", "scope_near_miss", "nothing_presented", "nothing_presented"},
 	"verify":     {"bad_vp_sig", "bad_vc_sig", "cred_revoked", "cred_expired"},
 	"token":      {"code_wrong", "code_reused", "token_client_id_wrong", "verifier_wrong", "verifier_missing", "state_wrong", "code_path_variant", "code_instead_of_presentation"},
 }
@@ -268,6 +326,9 @@ func c02GenPD(t *rapid.T, id string, kindPrefix string, descIDs *[]string, usedI
 			d.Fields = append(d.Fields, f)
 		}
 		pd.Descs = append(pd.Descs, d)
+	}
+	if rapid.IntRange(0, 9).Draw(t, label+"_subreq") < 4 {
+		pd.SubReq = rapid.SampledFrom(c02SubReqSpellings).Draw(t, label+"_subreq_spelling")
 	}
 	return pd
 }
